@@ -341,10 +341,16 @@ pub fn query_ids() -> Vec<(String, u128, u128)> {
 pub fn check_c14() -> i32 {
     let mut rep = Report::new("C14", "exploration");
     rep.rule = "STABLE_TYPE_ID of every type of a constructor-closed universe \
-                (29 base types; 34 unary constructors incl. arrays of length \
-                0-3, slices, references, raw pointers, smart pointers, cells, \
-                ranges, collections, PhantomData, derived generics; 6 binary \
-                constructors over all ordered pairs of 8 bases; 3-tuples in \
+                (generated from the list of hand-written Identifiable impls, \
+                every one occurs: 71 nullary types; 60 unary constructors over \
+                every sized nullary type incl. arrays of length 0-3, slices, \
+                references, raw pointers, smart pointers, cells, ranges, \
+                collections, sets under two hashers, PhantomData, derived \
+                generics, and what a set / option / wrapper could be defined \
+                as (map-to-unit, Result<T,()>, Box<[T]>, Vec<[T;1]>); 7 binary \
+                constructors over all ordered pairs of 8 bases; tuples of \
+                every arity 1-16 with one deviating element at every \
+                position; array lengths around 2^8 / 2^16 / 2^32; 3-tuples in \
                 every order; nestings and re-associations to depth 2): all \
                 pairwise distinct (sort + adjacent compare); QueryID (type id, \
                 128-bit key hash) of all 1280 harness query keys pairwise \
